@@ -39,6 +39,21 @@ def run(tier, seed):
         if not r.ok:
             v.violation("model/" + str(r.violation), "Merkle.tla (transcription of the code): %s is violated at depth %d" % (r.violation, p[0]),
                         {"tlc": r.out[-4000:]})
+    # the upper end of the quantifier: 254 / 255 positions in trees of 2^9 .. 2^11 leaves (as many node vectors as the limit allows,
+    # contiguous runs, mixtures), with a reduced mutation list
+    def mcbig(d):
+        return d, vlib.run_tlc("MC_MerkleBig", "MC_MerkleBig_d%d" % d, workers=2, tag="MC_MerkleBig_d%d" % d, timeout=3400, xmx="8g")
+
+    nbig = 0
+    for d, r in vlib.parallel(mcbig, [9, 10] if tier == "quick" else [9, 10, 11], max_workers=3):
+        log("[tlc] MC_MerkleBig depth=%d: %d position lists of 254/255 positions, %.1fs%s" % (d, len(r.printed), r.wall, "" if r.ok else " ** " + str(r.violation)))
+        states += r.distinct
+        trans += r.generated
+        cases += r.printed
+        nbig += len(r.printed)
+        if not r.ok:
+            v.violation("model/big/" + str(r.violation), "Merkle.tla (transcription of the code): %s is violated at depth %d with 255 positions" % (r.violation, d),
+                        {"tlc": r.out[-1500:]})
     # non-vacuity: the transcription without the leaf-count / all-nodes-consumed checks must be refuted
     rb = vlib.run_tlc("MC_Merkle", "MC_Merkle_d2", workers=2, env={"MK_STRICT": "0", "MK_MAXPERM": 2, "MK_MAXSIZE": 4, "MK_STRIDE": 1}, tag="MC_Merkle_ns")
     if rb.violation != "SoundInv":
@@ -86,8 +101,8 @@ def run(tier, seed):
         "samples": [{k: (c[k] if k not in ("muts", "model_accepts") else c[k][:3]) for k in c} for c in (cases[:1] + cases[-2:])],
         "evaluations": res["honest"] + res["mutated_batch"] + res["mutated_single"], "distinct_nontrivial": len(cases),
         "rule": "a case is a (depth, position list); plan (depth, all orders up to, max subset size, subset stride) = %s; each case carries every single "
-                "mutation of its honest opening; replayed for hashers %s" % (plan, hashers),
-        "exhaustive": tier == "thorough", "spec_drift": res["spec_drift"],
+                "mutation of its honest opening; plus %d position lists of 254/255 positions in trees of 2^9..2^11 leaves (MC_MerkleBig); replayed for hashers %s" % (plan, nbig, hashers),
+        "big_cases": nbig, "exhaustive": tier == "thorough", "spec_drift": res["spec_drift"],
         "known_finding_occurrences": v.n_known, "new_violations": v.n_new, "notes": v.notes,
     }, time.time() - t0, violations=v.n_new,
         assumptions=["hash functions are collision free on the inputs used (terms in the model, real digests in the replay)",
